@@ -4,7 +4,7 @@ T = "RsslVerif.Thm.C13."
 
 def nontrivial(req, obs):
     # an operator or cast applied to something, with a definite outcome
-    return req.count("(op ") + req.count("(cast ") >= 1
+    return req.count("(op ") + req.count("(cast ") + req.count("(b ") + req.count("(u ") + req.count("(t ") >= 1
 
 
 def finding_key(req, obs, detail):
@@ -31,12 +31,18 @@ def finding_key(req, obs, detail):
     # RayQuery<flags>: get_uint truncates an out-of-range literal with `as u32`
     if re.match(r"FAIL:rayquery recorded flags:\d+ for an expression whose value is L-?\d+ \(expected a rejection", d):
         return K_RAYQUERY
+    # an enum with underlying type uint is converted to int when it meets an int / bool operand (every enum ranks below bool)
+    if d.startswith("FAIL:[uint-backed enum converted to int]"):
+        return K_ENUMUINT
+    if req.startswith("C13.mix\t"):
+        return "\t".join(req.split("\t")[:2])
     return req.split("\tsrc:")[0]
 
 
 K_TEMPLATE = "template value argument is not converted to the declared parameter type (typer/src/typer/types.rs, scopes.rs)"
 K_TOF32 = "float property rejects a float literal or a negative int (Constant::to_f32, ir/src/ir_types.rs)"
 K_RAYQUERY = "RayQuery flags literal outside 32 bits is truncated (get_uint, typer/src/typer/types.rs)"
+K_ENUMUINT = "uint-backed enum operand is converted to int (get_non_vector_conversion_rank ranks every enum below bool, typer/src/typer/expressions.rs)"
 K_ENUMREF = "panic typer/src/typer/expressions.rs: type self-check on a reference to an earlier enumerator (typer/src/typer/enums.rs records the initialiser's static type)"
 
 
@@ -58,6 +64,15 @@ def _subtrees(s):
 
 def shrink(req):
     f = req.split("\t")
+    if f[0] == "C13.mix" and len(f) >= 2:
+        # a source tree: one of its operand subtrees, or one operand replaced by one of its operands
+        for sub in _subtrees(f[1]):
+            if not sub.startswith("(a "):
+                yield "C13.mix\t" + sub
+        for sub in _subtrees(f[1]):
+            for subsub in _subtrees(sub):
+                yield "C13.mix\t" + f[1].replace(sub, subsub, 1)
+        return
     if f[0] != "C13.eval" or len(f) < 2:
         return
     tree = f[1]
@@ -94,7 +109,7 @@ def search(ctx):
 
 SPEC = {
     "id": "C13",
-    "gens": ["EvalTable", "EvalSites", "PosTable"],
+    "gens": ["EvalTable", "EvalSites", "PosTable", "RankTable", "TypingTables", "BinopTyping"],
     "lean_modules": ["RsslVerif.Thm.C13"],
     "theorems": [T + n for n in [
         "consteval_no_panic", "tables_panic_free", "consteval_agrees", "div_mod_zero_not_constant",
@@ -103,7 +118,8 @@ SPEC = {
         "float_to_int_trunc_saturate", "float_narrowing_is_c10_narrow32", "position_rules_as_reviewed", "position_count_agrees", "position_count_complete",
         "position_count_rejections", "case_label_value", "const_initialiser_value", "template_argument_value",
         "template_argument_not_converted", "lod_property_value", "lod_property_complete", "lod_property_rejections",
-        "enum_values_c_semantics", "enum_rejected_only_out_of_range", "enum_overflow_only_at_type_max", "enum_no_panic"]],
+        "enum_values_c_semantics", "enum_rejected_only_out_of_range", "enum_overflow_only_at_type_max", "enum_no_panic",
+        "binop_common_type_as_specified_partial", "binop_common_type_uint_enum_not_as_specified", "binop_common_type_literal_pairs"]],
     "harness": "c13",
     "nontrivial": nontrivial,
     "finding_key": finding_key,
